@@ -225,12 +225,12 @@ def install(world):
         if isinstance(a, V) and a.t == STR:
             return a
         a = eng.coerce(a, OPT_ATTRVAL, node)
-        return V(OPT_STR, z3.If(OPT_ATTRVAL.is_none(a.term), OPT_STR.none(), OPT_STR.some(ATTRVAL.get(OPT_ATTRVAL._dt.val(a.term), 'AStr'))))
+        return V(OPT_STR, z3.If(OPT_ATTRVAL.is_none(a.term), OPT_STR.none(), OPT_STR.some(ATTRVAL.get(OPT_ATTRVAL.val_acc(a.term), 'AStr'))))
     world.add_prim('as_str', p_as_str, VT.as_str)
 
     def p_is_str_val(eng, args, st, node):
         a = eng.coerce(args[0], OPT_ATTRVAL, node)
-        return V(BOOL, z3.Or(OPT_ATTRVAL.is_none(a.term), ATTRVAL.is_alt(OPT_ATTRVAL._dt.val(a.term), 'AStr')))
+        return V(BOOL, z3.Or(OPT_ATTRVAL.is_none(a.term), ATTRVAL.is_alt(OPT_ATTRVAL.val_acc(a.term), 'AStr')))
     world.add_prim('is_str_val', p_is_str_val, VT.is_str_val)
 
     def p_ws_tokens(eng, args, st, node):
@@ -244,12 +244,12 @@ def install(world):
 
     def p_is_list_val(eng, args, st, node):
         a = eng.coerce(args[0], OPT_ATTRVAL, node)
-        return V(BOOL, z3.And(z3.Not(OPT_ATTRVAL.is_none(a.term)), ATTRVAL.is_alt(OPT_ATTRVAL._dt.val(a.term), 'AList')))
+        return V(BOOL, z3.And(z3.Not(OPT_ATTRVAL.is_none(a.term)), ATTRVAL.is_alt(OPT_ATTRVAL.val_acc(a.term), 'AList')))
     world.add_prim('is_list_val', p_is_list_val, VT.is_list_val)
 
     def p_as_list(eng, args, st, node):
         a = eng.coerce(args[0], OPT_ATTRVAL, node)
-        return V(TSeq(STR), ATTRVAL.get(OPT_ATTRVAL._dt.val(a.term), 'AList'))
+        return V(TSeq(STR), ATTRVAL.get(OPT_ATTRVAL.val_acc(a.term), 'AList'))
     world.add_prim('as_list', p_as_list, VT.as_list)
 
     def p_attr_ns(eng, args, st, node):
